@@ -298,9 +298,10 @@ func (w *World) Prelude(body string) string {
 		b.WriteString("(declare-fun strlen (Str) Int)\n")
 		if usesByte {
 			b.WriteString("(declare-fun |str.byte| (Str Int) Int)\n")
+			b.WriteString("(assert (forall ((s Str) (i Int)) (! (and (<= 0 (|str.byte| s i)) (<= (|str.byte| s i) 255)) :pattern ((|str.byte| s i)))))\n")
 		}
 		if usesStrlen {
-			b.WriteString("(assert (forall ((s Str)) (! (>= (strlen s) 0) :pattern ((strlen s)))))\n")
+			b.WriteString("(assert (forall ((s Str)) (! (and (>= (strlen s) 0) (<= (strlen s) 9223372036854775807)) :pattern ((strlen s)))))\n")
 		}
 	}
 	b.WriteString("(declare-datatypes ((Slice 0)) (((mk_slice (s_arr Int) (s_off Int) (s_len Int) (s_cap Int)))))\n")
@@ -317,6 +318,15 @@ func (w *World) Prelude(body string) string {
 	b.WriteString("(define-fun trem ((a Int) (b Int)) Int (- a (* b (tdiv a b))))\n")
 	b.WriteString("(define-fun iabs ((a Int)) Int (ite (>= a 0) a (- a)))\n")
 	b.WriteString("(define-fun rabs ((a Real)) Real (ite (>= a 0.0) a (- a)))\n")
+	if strings.Contains(body, "(pow2 ") {
+		var pb strings.Builder
+		for k := 0; k <= 62; k++ {
+			fmt.Fprintf(&pb, "(ite (= n %d) %d ", k, int64(1)<<uint(k))
+		}
+		pb.WriteString("0")
+		pb.WriteString(strings.Repeat(")", 63))
+		b.WriteString("(define-fun pow2 ((n Int)) Int " + pb.String() + ")\n")
+	}
 	b.WriteString("(define-fun imin ((a Int) (b Int)) Int (ite (<= a b) a b))\n")
 	b.WriteString("(define-fun imax ((a Int) (b Int)) Int (ite (>= a b) a b))\n")
 	for _, name := range w.order {
